@@ -63,6 +63,7 @@ func C09(c *Ctx) {
 	c.chainBatchDiscipline("R09.7")
 	if rm := c.fn("R09.8", chainPrefix+"removeChainDataOnBlock"); rm != nil && len(rm.Params) >= 3 {
 		h := rm.Params[2]
+		var fromLoadedParam func(v ssa.Value) bool
 		fromHeight := func(v ssa.Value) bool {
 			return core.Mentions(v, func(w ssa.Value) bool {
 				if w == ssa.Value(h) {
@@ -77,7 +78,57 @@ func C09(c *Ctx) {
 					}
 				}
 				return false
-			})
+			}) || fromLoadedParam(v)
+		}
+		// a parameter of removeChainDataOnBlock other than the height (the block, loaded by the caller): at every call
+		// site the argument is loaded under the very height that is passed as the height argument
+		fromLoadedParam = func(v ssa.Value) bool {
+			hIdx := -1
+			for i, q := range rm.Params {
+				if q == h {
+					hIdx = i
+				}
+			}
+			ss := core.StaticSitesOf(rm)
+			if hIdx < 0 || len(ss) == 0 {
+				return false
+			}
+			for pi, q := range rm.Params {
+				if pi == 0 || q == h || strings.HasSuffix(q.Type().String(), "storage.Batch") {
+					continue
+				}
+				qq := q
+				if !core.Mentions(v, func(w ssa.Value) bool { return w == ssa.Value(qq) }) {
+					continue
+				}
+				all := true
+				for _, site := range ss {
+					args := site.Common().Args
+					if pi >= len(args) || hIdx >= len(args) {
+						all = false
+						break
+					}
+					argH := core.Strip(args[hIdx])
+					if !core.Mentions(args[pi], func(w ssa.Value) bool {
+						cc, ok := w.(*ssa.Call)
+						if !ok {
+							return false
+						}
+						for _, a := range cc.Call.Args {
+							if core.Strip(a) == argH {
+								return true
+							}
+						}
+						return false
+					}) {
+						all = false
+					}
+				}
+				if all {
+					return true
+				}
+			}
+			return false
 		}
 		fromHead := func(v ssa.Value) bool {
 			return core.Mentions(v, func(w ssa.Value) bool {
